@@ -274,10 +274,10 @@ func (u *U) Eq(a, b *E) *E {
 	if a == b {
 		return u.Bool(True)
 	}
-	if a.Op == "ite" {
+	if a.Op == "ite" && liftOver(a, b) {
 		return u.Bool(u.bdd.ITE(a.B, u.ToBool(u.Eq(a.Args[0], b)), u.ToBool(u.Eq(a.Args[1], b))))
 	}
-	if b.Op == "ite" {
+	if b.Op == "ite" && liftOver(b, a) {
 		return u.Bool(u.bdd.ITE(b.B, u.ToBool(u.Eq(a, b.Args[0])), u.ToBool(u.Eq(a, b.Args[1]))))
 	}
 	if isBoolE(a) && isBoolE(b) {
@@ -322,10 +322,10 @@ func (u *U) Lt(a, b *E) *E {
 	if a == b {
 		return u.Bool(False)
 	}
-	if a.Op == "ite" {
+	if a.Op == "ite" && liftOver(a, b) {
 		return u.Bool(u.bdd.ITE(a.B, u.ToBool(u.Lt(a.Args[0], b)), u.ToBool(u.Lt(a.Args[1], b))))
 	}
-	if b.Op == "ite" {
+	if b.Op == "ite" && liftOver(b, a) {
 		return u.Bool(u.bdd.ITE(b.B, u.ToBool(u.Lt(a, b.Args[0])), u.ToBool(u.Lt(a, b.Args[1]))))
 	}
 	if a.IsConst() && b.IsConst() {
@@ -709,4 +709,16 @@ func (u *U) foldCall(name string, args []*E, typ types.Type) *E {
 		}
 	}
 	return nil
+}
+
+// liftOver decides whether a comparison is distributed over the branches of
+// the if-then-else x: only when the other operand is a constant/nil (the
+// branches then usually fold) or when x selects between constants/nil.  This
+// keeps comparisons of two computed keys a single atom.
+func liftOver(x, other *E) bool {
+	if other.IsConst() || other.IsNil() || other.Op == "bool" {
+		return true
+	}
+	leafConst := func(e *E) bool { return e.IsConst() || e.IsNil() }
+	return leafConst(x.Args[0]) && leafConst(x.Args[1])
 }
